@@ -121,6 +121,10 @@ def translate(ctx):
     for fn, (ok, why) in avail.items():
         if not ok:
             ctx.notes.append(f'translator failed closed for {fn} ({why}); that kernel rests on correspondence alone in this run')
+            # the model is no longer tied to this kernel's source: the property is not shown to hold on this tree (the families below search
+            # for a failing input; without one the VIOLATION line carries no-failing-input-found)
+            ctx.obligations += 1
+            ctx.problem('proof', 'gen_rotation', None, f'the source of {fn} no longer has the form the model mirrors (translator failed closed: {why})')
     n = sum(1 for ok, _ in avail.values() if ok)
     ctx.obligations += n
     rc, so, se = vlib.coqc_file(out)
